@@ -7,18 +7,7 @@ Theorem flag_agrees md s :
   Inv md s -> closed s = false -> reg s = true -> md <> ET -> mout s = wadded s.
 Proof.
   intros [Hc | (Hc & HA & HB & H1 & H5 & _)] Hcl Hr Hmd; [congruence|].
-  destruct md; try congruence.
-  - apply H5; auto.
-  - apply H5; auto.
-Qed.
-
-(* ... and the flag is up exactly while there is a backlog (or the dial callback has not returned yet) *)
-Theorem flag_iff_backlog s :
-  Inv ETOS s -> closed s = false -> dial s = false -> pw s <> WConn -> (wadded s = true <-> 0 < q s).
-Proof.
-  intros [Hc | (Hc & HA & HB & H1 & H5 & _)] Hcl Hd Hp; [congruence|].
-  split; auto. intros Hw. destruct (Nat.eq_dec (q s) 0) as [Z|NZ]; [|lia].
-  destruct H5 as [_ H5]. destruct (H5 Z Hw); congruence.
+  destruct md; try congruence; apply H5; auto.
 Qed.
 
 Lemma resetRead_fields md s :
@@ -68,7 +57,7 @@ Proof.
     - apply X7; auto.
     - rewrite X8 by auto. rewrite Mr, Hmw by auto. congruence. }
   clear E2. destruct F2 as (A2 & B2 & R2 & G2 & M2 & O2).
-  cbn [step]. unfold deliverable_out, rearm, kctl, set_owed.
+  cbn [step]. unfold deliverable_out, rearm, kctl, set_owed, set_wadded.
   destruct md; unfold is_et, is_os in *; simp_proj.
   - destruct (owed s2); simp_proj; rewrite R2, M2 by congruence; reflexivity.
   - destruct (owed s2); simp_proj; rewrite G2; cbn [orb]; rewrite !andb_false_r; reflexivity.
